@@ -21,6 +21,7 @@ from cfg import *
 import C54
 from ownership import check_ownership
 import borrow
+import progress
 
 RULE = ("typestate dataflow on the clang CFG: token iterators (locals, parameters and the member this->current) are "
         "dereferenced only in state CHECKED; helper summaries from bodies; ownership rule")
@@ -227,7 +228,16 @@ def run(tier):
     check_ownership(rep, funcs, rel)
     borrow.rule(rep, funcs, lambda t: bool(C54.ITER.search(t or "")), rel, 5)
     crash_rules(rep, funcs)
+    progress.rule(rep, funcs, rel, ACCEPTED)
+    # the libraries mfront reads its input with (tokenizer, Data, argument parsing, formula and integer evaluators, glossary)
+    lib = units_under("src/Utilities")
+    if tier == "thorough":
+        lib += [u for u in units_under("src/Math") if re.search(r"(Evaluator|Parser|parser)", u)] + units_under("src/Glossary", "src/UnicodeSupport")
+        lib += [u for u in units_under("src/System") if "ExternalLibraryManager" in u or "LibraryInformation" in u]
+    progress.scan(rep, sorted(set(lib)), r"^tfel::", rel, ACCEPTED, "libraries")
+    rep.floor("loops examined for progress (libraries)", 25)
+    rep.floor("loops examined for progress", 60)
     rep.floor("iterator dereference sites", 300)
-    rep.assumptions += ["a necessary condition only: termination in bounded time and the other sources of undefined behaviour are not decided",
+    rep.assumptions += ["a necessary condition only: of termination, only 'no loop has a state-preserving trip' (LOOP-PROGRESS) and 'no unguarded recursion on files' are decided; the other sources of undefined behaviour are not decided",
                         "quick tier: the anchor units; thorough: every unit of mfront/src and mfront-query/src"]
     return rep
